@@ -8,6 +8,8 @@ Strings are lower-case hex (`-` = empty string); lists are comma separated
   rel p=<s> f=<s>                    makeRelPath
   mk p=<s> f=<s>                     makePath
   dfp d=<s> ps=<list>                dirFilePath (env.src / env.out with d = srcDir / outDir)
+  buildinc p=<s> tree=<list> sets=<files+..;..> files=<list>   a built file set including file sets -> built files=<list> | err
+  dbuild p=<s> tree=<list> name=<s> df=<s>   a docker_build rule loaded -> ok deps=<list> | err
   subdirs p=<s> dirs=<list>          newSubBuilds: the directories a sub_builds statement names
   match pat=<s> name=<s>             path.Match      -> yes | no | bad
   fmatch pat=<s> name=<s>            filepath.Match  -> yes | no | bad
@@ -60,6 +62,31 @@ def step (_ : Unit) (line : String) : Unit × String :=
       match kvS rest "d", kvL rest "ps" with
       | some d, some ps => showS (dirFilePath d ps)
       | _, _ => "bad-op"
+    | "buildinc" :: rest =>
+      -- a file set with explicit files that includes file sets i0, i1, ... of its package
+      match kvS rest "p", kvL rest "tree", kv rest "sets", kvL rest "files" with
+      | some p, some t, some sw, some files =>
+        let sets : Option (List (List Str)) :=
+          if sw = "." then some [] else (sw.splitOn ";").mapM (fun x => if x = "." then some [] else (x.splitOn "+").mapM parseS)
+        match sets with
+        | some sets =>
+          let all := sortDedup ((files ++ sets.flatten).map (makePath p))
+          if all.all (fun f => isFile (treeOf t) (segsOf f)) then s!"built files={showL all}" else "err"
+        | none => "bad-op"
+      | _, _, _, _ => "bad-op"
+    | "dbuild" :: rest =>
+      -- newDockerBuild + load: the rule's dependencies (no From / Input: the Dockerfile)
+      match kvS rest "p", kvL rest "tree", kvS rest "name", kvS rest "df" with
+      | some p, some t, some name, some df =>
+        let nm := makeRelPath p name
+        let parts := segsOf nm
+        let dockers := parts.getD 2 []
+        if parts.length ≠ 4 ∨ ¬ (dockers = "dockers".toList ∨ isSuffixOfStr "-dockers".toList dockers) then "err"
+        else if nm = p then "err"
+        else
+          let f := if df = [] then join [nm, "Dockerfile".toList] else makePath p df
+          if isFile (treeOf t) (segsOf f) then s!"ok deps={showL [f]}" else "err"
+      | _, _, _, _ => "bad-op"
     | "subdirs" :: rest =>
       match kvS rest "p", kvL rest "dirs" with
       | some p, some dirs => showL (dirs.map (makeRelPath p))
